@@ -30,7 +30,7 @@ ASSUMPTIONS = [
     "masked (documented) differences: model, set-point resolution, supported power controls (away / sleep), intelligent auto fan speed, bypass reporting, per-mode limits (made equal by construction), zone control-method side effect of set-point / damper calls, zone supported power states (AT4 zones advertise turbo support), target temperature of sensorless zones",
     "histories use values expressible in both protocols only",
 ]
-PROBES = ["c19.write_fault_on_both", "c19.api_call_compared", "c19.reject_compared", "c19.snapshot_compared", "c19.auto_heat_cool", "c19.multi_ac"]
+PROBES = ["c19.named_zone_not_yet_reported", "c19.write_fault_on_both", "c19.api_call_compared", "c19.reject_compared", "c19.snapshot_compared", "c19.auto_heat_cool", "c19.multi_ac"]
 MASK_AC = {"target_temperature_resolution", "supported_power_controls"}
 MASK_ZONE = {"target_temperature_resolution", "supported_power_states"}
 
@@ -113,6 +113,16 @@ def generate(rng, index: int, tier: str) -> dict:
     inst5 = {"gen": 5, "acs": acs5, "zones": z5, "versions": versions, "update": upd, "ac_stride": 10, "zone_stride": 8, "timer_stride": 9}
     tl4 = [{"at": 0.0, "op": "user.init"}]
     tl5 = [{"at": 0.0, "op": "user.init"}]
+    unrep = None
+    if n_zones > 1 and rng.random() < 0.12:
+        # one zone is named by the console but missing from every zone status for a while (the status answer of the
+        # handshake carries the others): what the client shows for it meanwhile is the same on both generations
+        unrep = rng.randrange(n_zones)
+        t_rep = 6.0 + 0.5 * rng.randint(2, 8) + 0.25
+        for tl in (tl4, tl5):
+            tl.append({"at": 0.0, "op": "console.unreported", "zones": [unrep]})
+            tl.append({"at": t_rep, "op": "console.unreported", "zones": []})
+            tl.append({"at": t_rep, "op": "console.publish", "what": "zone", "ids": None})
     t = 6.0
     n = rng.choice([4, 8, 16])
     if rng.random() < 0.25:
@@ -176,9 +186,17 @@ def generate(rng, index: int, tier: str) -> dict:
         t += 0.5
     lat = rng.choice([0.0, G.TICK, 2.0**-7])
     mk = lambda gen, inst, tl: {"gen": gen, "mode": "api", "installation": inst, "knobs": {"latency": lat, "seg": {"mode": "whole"}}, "timeline": tl, "end": t + 1.0}  # noqa: E731
+    t_rep_v = None
+    if unrep is not None:
+        t_rep_v = t_rep
+        # nothing is asked of, or changed on, the zone the client has not been told about yet
+        def _hits(x):
+            return x["at"] < t_rep and ((x["op"] == "user.api" and x.get("target") == ["zone", unrep]) or (x["op"] == "console.set" and x.get("entity") == ["zone", unrep]))
+        tl4[:] = [x for x in tl4 if not _hits(x)]
+        tl5[:] = [x for x in tl5 if not _hits(x)]
     for tl in (tl4, tl5):
         tl.sort(key=lambda x: x["at"])
-    return {"gen": 45, "s4": mk(4, inst4, tl4), "s5": mk(5, inst5, tl5), "timeline": tl5, "knobs": {}, "write_faults": info_faults}
+    return {"gen": 45, "unreported_until": t_rep_v, "s4": mk(4, inst4, tl4), "s5": mk(5, inst5, tl5), "timeline": tl5, "knobs": {}, "write_faults": info_faults, "unreported_zone": unrep}
 
 
 def _abstract_cmd(gen: int, r: dict):
@@ -268,6 +286,8 @@ def execute(sc: dict) -> dict:
         probes["c19.multi_ac"] = 1
     if sc.get("write_faults"):
         probes["c19.write_fault_on_both"] = 1
+    if sc.get("unreported_zone") is not None:
+        probes["c19.named_zone_not_yet_reported"] = 1
     # An AT4 timer command that leaves BOTH timers of the named AC enabled at 00:00 is an all-zero record, which the
     # reference console reads as "AC not named" (spec/undocumented_messages.md): such a command is not expressible in the
     # AT4 wire format, so the timers of that AC leave the comparison from that call on (the command's meaning is still compared).
@@ -291,7 +311,15 @@ def execute(sc: dict) -> dict:
         # documented difference: AT4 set-point / damper calls also select the control method
         touched = {st["target"][1] for (at, st) in api_steps if at <= t4 and st["target"][0] == "zone" and st["call"] in ("set_target_temperature", "set_damper_percentage")}
         tmask = {ac for (at, ac) in ambiguous if at <= t4}
-        d = _first_diff(_norm_snap(s4, touched, tmask), _norm_snap(s5, touched, tmask))
+        n4, n5 = _norm_snap(s4, touched, tmask), _norm_snap(s5, touched, tmask)
+        uz = sc.get("unreported_zone")
+        if uz is not None and t4 < (sc.get("unreported_until") or 0) + 0.5:
+            # a zone the console has named but not yet reported: only what does not depend on a report is compared (AT4 learns
+            # turbo support, sensor and the rest from the status record, AT5 has no turbo flag at all)
+            for n in (n4, n5):
+                for key in [k for k in n["zones"] if str(k) == str(uz)]:
+                    n["zones"][key] = {a: v for a, v in n["zones"][key].items() if a in ("zone_id", "name", "current_temperature")}
+        d = _first_diff(n4, n5)
         if d:
             V.append(viol("C19.getter_differs", {"t": t4, "where": d[0], "at4": repr(d[1])[:200], "at5": repr(d[2])[:200]}, attr=d[0].split("/")[-1]))
             break
